@@ -136,6 +136,8 @@ def run(repo: Repo, rep: Report, tier: str) -> None:
     _c11._pack_union(repo, Only(rep, {"R11.8"}), tier)
     from ..core import helper_contracts as _hc3
     _hc3.report(repo, rep, "R01.6", _hc3.type_param_collection_contract(repo), "mashumaro.core.meta.helpers::collect_type_params")
+    from . import c19 as _c19
+    _c19._hook_and_dispatch_contracts(repo, Only(rep, {"R19.8"}))
 
 _ADDENDUM = ' R02.6: the real body of Registry.get (strip Annotated, substitute type parameters, first non-None creator in registration order, UnserializableField otherwise) equals the model the dispatch simulation uses. Borrowed: R15.6 (nested builders inherit format and default dialect), R11.8 (pack_union helper shape and member order).'
 EXPLANATION += _ADDENDUM
@@ -143,3 +145,6 @@ LEVEL_TEXT += _ADDENDUM
 _ADD7 = ' Borrowed: R01.6.'
 EXPLANATION += _ADD7
 LEVEL_TEXT += _ADD7
+_ADD21 = ' Borrowed: R19.8.'
+EXPLANATION += _ADD21
+LEVEL_TEXT += _ADD21
